@@ -75,9 +75,23 @@ def x_hist(ctx, case):
         def __len__(self):
             return 0
 
+    class ByValue(recorders.StreamRecorder):
+        """A sink that compares by value (like a @dataclass result): two distinct sinks that have
+        received the same events so far are == (and the class is unhashable)."""
+
+        def _own(self):
+            return [(e.name, e.test) for e in self.log.events if e.payload["sink"] == self.name]
+
+        def __eq__(self, other):
+            return isinstance(other, ByValue) and self._own() == other._own()
+
+        __hash__ = None
+
     def sink(name):
         if name not in sinks:
             cls = EmptyLooking if cfg.get("falsy_sinks") else recorders.StreamRecorder
+            if cfg.get("equal_sinks"):
+                cls = ByValue
             sinks[name] = cls(log, name)
         return sinks[name]
 
@@ -266,6 +280,8 @@ def run(ctx):
         ops, k = [], 0
         if rng.random() < 0.2:
             cfg["falsy_sinks"] = True
+        elif rng.random() < 0.2:
+            cfg["equal_sinks"] = True
         for _ in range(rng.randint(2, 14)):
             r = rng.random()
             if r < 0.04:
